@@ -473,3 +473,111 @@ class PopulationSelection(Contract):
 
 
 REGISTRY.append(PopulationSelection())
+
+
+# ---- wiring of the measure collection ----------------------------------------------------
+class SecondOrderMeasuresWiring(Contract):
+    """every property of SecondOrderMeasures builds the measure object it is named after,
+    bound to this slice's dimensions / cube measures, in the right orientation and with the
+    right (weighted / unweighted) cube counts.  The table below is written from the names."""
+
+    name = MOD + ":SecondOrderMeasures.<wiring>"
+    props = ("C02", "C03", "C05", "C10", "C11", "C14")
+
+    SIMPLE = {
+        "column_comparable_counts": "_ColumnComparableCounts", "column_index": "_ColumnIndex",
+        "column_proportions": "_ColumnProportions", "column_share_sum": "_ColumnShareSum",
+        "column_std_err": "_ColumnStandardError", "column_unweighted_bases": "_ColumnUnweightedBases",
+        "column_squared_bases": "_ColumnSquaredBases", "column_weighted_bases": "_ColumnWeightedBases",
+        "means": "_Means", "medians": "_Medians", "population_proportions": "_PopulationProportions",
+        "population_std_err": "_PopulationStandardError", "pvalues": "_Pvalues",
+        "row_comparable_counts": "_RowComparableCounts", "row_proportions": "_RowProportions",
+        "row_share_sum": "_RowShareSum", "row_std_err": "_RowStandardError",
+        "row_unweighted_bases": "_RowUnweightedBases", "row_weighted_bases": "_RowWeightedBases",
+        "smoothed_column_index": "_ColumnIndexSmoothed", "smoothed_column_proportions": "_ColumnProportionsSmoothed",
+        "smoothed_means": "_MeansSmoothed", "sums": "_Sums", "stddev": "_StdDev",
+        "table_proportions": "_TableProportions", "table_std_err": "_TableStandardError",
+        "table_unweighted_bases": "_TableUnweightedBases", "table_weighted_bases": "_TableWeightedBases",
+        "total_share_sum": "_TotalShareSum", "unweighted_counts": "_UnweightedCounts",
+        "weighted_counts": "_WeightedCounts", "zscores": "_Zscores",
+    }
+    ORIENTED = {
+        "columns_table_proportion": ("_MarginTableProportion", "COLUMNS"), "rows_table_proportion": ("_MarginTableProportion", "ROWS"),
+        "columns_scale_mean": ("_ScaleMean", "COLUMNS"), "rows_scale_mean": ("_ScaleMean", "ROWS"),
+        "columns_scale_mean_stddev": ("_ScaleMeanStddev", "COLUMNS"), "rows_scale_mean_stddev": ("_ScaleMeanStddev", "ROWS"),
+        "columns_scale_mean_stderr": ("_ScaleMeanStderr", "COLUMNS"), "rows_scale_mean_stderr": ("_ScaleMeanStderr", "ROWS"),
+        "columns_scale_median": ("_ScaleMedian", "COLUMNS"), "rows_scale_median": ("_ScaleMedian", "ROWS"),
+        "columns_unweighted_base": ("_MarginUnweightedBase", "COLUMNS"), "rows_unweighted_base": ("_MarginUnweightedBase", "ROWS"),
+        "columns_squared_base": ("_MarginSquaredBase", "COLUMNS"),
+        "columns_weighted_base": ("_MarginWeightedBase", "COLUMNS"), "rows_weighted_base": ("_MarginWeightedBase", "ROWS"),
+        "smoothed_columns_scale_mean": ("_ScaleMeanSmoothed", "COLUMNS"),
+    }
+    WITH_COUNTS = {
+        "columns_table_unweighted_base": ("_MarginTableBase", "COLUMNS", "u"), "columns_table_weighted_base": ("_MarginTableBase", "COLUMNS", "w"),
+        "rows_table_unweighted_base": ("_MarginTableBase", "ROWS", "u"), "rows_table_weighted_base": ("_MarginTableBase", "ROWS", "w"),
+        "table_unweighted_base": ("_TableBase", None, "u"), "table_weighted_base": ("_TableBase", None, "w"),
+        "table_unweighted_bases_range": ("_TableBasesRange", None, "u"), "table_weighted_bases_range": ("_TableBasesRange", None, "w"),
+    }
+    VARIANCES = {
+        "column_proportion_variances": ("column_proportions", "column_weighted_bases"),
+        "row_proportion_variances": ("row_proportions", "row_weighted_bases"),
+        "table_proportion_variances": ("table_proportions", "table_weighted_bases"),
+    }
+    SELECTED = {
+        "pairwise_p_vals": "_PairwiseSigPvals", "pairwise_t_stats": "_PairwiseSigTstats",
+        "pairwise_p_vals_for_subvar": "_PairwiseSigPValsForSubvar", "pairwise_t_stats_for_subvar": "_PairwiseSigTStatsForSubvar",
+        "pairwise_significance_means_p_vals": "_PairwiseMeansSigPVals", "pairwise_significance_means_t_stats": "_PairwiseMeansSigTStats",
+    }
+
+    def run(self, B, cfg):
+        MO = B.enum("enums:MARGINAL_ORIENTATION")
+        cube, dims, k = B.stub("cube"), (B.stub("rows"), B.stub("cols")), 3
+
+        def fresh():
+            som = B.new(MOD + ":SecondOrderMeasures", cube, dims, k)
+            u, w = object(), object()
+            cm = B.stub("cube_measures", unweighted_cube_counts=u, weighted_cube_counts=w)
+            B.cut(som, "_cube_measures", cm)
+            return som, cm, u, w
+
+        def base_ok(o, som, cm, cls):
+            return type(o).__name__ == cls and o._dimensions is dims and o._second_order_measures is som and o._cube_measures is cm
+
+        for prop, cls in sorted(self.SIMPLE.items()):
+            som, cm, u, w = fresh()
+            B.check("simple:" + prop, base_ok(getattr(som, prop), som, cm, cls))
+        for prop, (cls, orient) in sorted(self.ORIENTED.items()):
+            som, cm, u, w = fresh()
+            o = getattr(som, prop)
+            B.check("oriented:" + prop, base_ok(o, som, cm, cls) and o._orientation is getattr(MO, orient))
+        for prop, (cls, orient, which) in sorted(self.WITH_COUNTS.items()):
+            som, cm, u, w = fresh()
+            o = getattr(som, prop)
+            ok = base_ok(o, som, cm, cls) and o._cube_counts is (u if which == "u" else w)
+            if orient:
+                ok = ok and o._orientation is getattr(MO, orient)
+            B.check("with-counts:" + prop, ok)
+        for prop, (pname, bname) in sorted(self.VARIANCES.items()):
+            som, cm, u, w = fresh()
+            pb, bb = object(), object()
+            B.cut(som, pname, B.stub(pname, blocks=pb))
+            B.cut(som, bname, B.stub(bname, blocks=bb))
+            o = getattr(som, prop)
+            B.check("variances:" + prop, base_ok(o, som, cm, "_ProportionVariances") and o._proportions is pb and o._count_total is bb)
+        for meth, cls in sorted(self.SELECTED.items()):
+            som, cm, u, w = fresh()
+            o = getattr(som, meth)(7)
+            sel = getattr(o, "_selected_column_idx", getattr(o, "_selected_subvar_idx", None))
+            B.check("selected:" + meth, base_ok(o, som, cm, cls) and sel == 7)
+        som, cm, u, w = fresh()
+        pm_u, pm_c = object(), object()
+        cm2 = B.stub("cube_measures", unweighted_cube_counts=B.stub("ucc", rows_pruning_mask=pm_u, columns_pruning_mask=pm_c),
+                     weighted_cube_counts=B.stub("wcc"))
+        B.cut(som, "_cube_measures", cm2)
+        B.check("pruning-masks-from-unweighted-counts", som.rows_pruning_mask is pm_u and som.columns_pruning_mask is pm_c)
+        som2 = B.new(MOD + ":SecondOrderMeasures", cube, dims, k)
+        cmr = som2._cube_measures
+        B.check("_cube_measures", type(cmr).__name__ == "CubeMeasures" and cmr._cube is cube and cmr._dimensions is dims and cmr._slice_idx == k)
+
+
+REGISTRY.append(SecondOrderMeasuresWiring())
